@@ -472,14 +472,33 @@ pub fn run_one(path: &str, workdir: &str, index: usize) {
                         r
                     }
                 }
-                "drop" => {
-                    // the connection is cut without a close handshake (TCP: the same as disc)
+                "drop" | "reset" => {
+                    // drop: the connection is cut without a close handshake (FIN).  reset: the socket is closed while an
+                    // answer of the server is still unread, so the kernel answers with RST and the server's next read
+                    // fails with ECONNRESET instead of returning 0
                     let sid: usize = op[1].parse().unwrap();
                     acting = Some(sid);
                     if conns[sid].st != St::Open {
                         "DEAD".to_string()
                     } else {
-                        let _ = conns[sid].stream.shutdown(Shutdown::Both);
+                        if op[0] == "reset" {
+                            conns[sid].send_cmd(SENTINEL.as_bytes(), false);
+                            let t0 = Instant::now();
+                            let mut one = [0u8; 1];
+                            while t0.elapsed() < Duration::from_secs(5) {
+                                match conns[sid].stream.peek(&mut one) {
+                                    Ok(n) if n > 0 => break,
+                                    _ => std::thread::sleep(Duration::from_millis(2)),
+                                }
+                            }
+                            // closing = dropping the stream: put a throw-away connection in its place
+                            let l = TcpListener::bind("127.0.0.1:0").unwrap();
+                            let dummy = TcpStream::connect(l.local_addr().unwrap()).unwrap();
+                            let old = std::mem::replace(&mut conns[sid].stream, dummy);
+                            drop(old);
+                        } else {
+                            let _ = conns[sid].stream.shutdown(Shutdown::Both);
+                        }
                         conns[sid].st = St::Closed;
                         // no answer can tell when the server noticed: wait for its side of the connection to be gone
                         let t0 = Instant::now();
